@@ -229,6 +229,10 @@ func runC32(c *an.Ctx) {
 		}
 		c.Add(okW, "R2", "encodeTags:magic-then-map", et, "the full form is the magic byte followed by the msgpack encoding of the tag map", "call order + constant")
 		okR := len(an.EdgesImplying(dt, an.Cmp{L: "$1[c:0]", Op: "!=", R: magic})) > 0
+		for _, dc := range an.CallsTo(dt, "codec.(*Decoder).Decode") {
+			// the test may be computed as a value first (a predicate helper): then it shows as the decode's guard
+			okR = okR || an.GuardedBy(dt, dc, an.Cmp{L: "$1[c:0]", Op: "==", R: magic})
+		}
 		c.Add(okR, "R2", "decodeTags:tests-magic", dt, "the decoder tests the first byte against the same magic byte "+magic, "edge enumeration")
 		// role-only exactly below protocol 3
 		for _, r := range an.Returns(et) {
@@ -243,7 +247,7 @@ func runC32(c *an.Ctx) {
 		okRole := false
 		an.Instrs(dt, func(in ssa.Instruction) {
 			if mu, ok := in.(*ssa.MapUpdate); ok && an.Path(mu.Key) == `c:"role"` && an.Path(mu.Value) == "$1" {
-				okRole = an.Guarded(dt, in, append(an.EdgesImplying(dt, an.Cmp{L: "len($1)", Op: "==", R: "c:0"}), an.EdgesImplying(dt, an.Cmp{L: "$1[c:0]", Op: "!=", R: magic})...))
+				okRole = an.GuardedAny(dt, in, an.Cmp{L: "len($1)", Op: "==", R: "c:0"}, an.Cmp{L: "$1[c:0]", Op: "!=", R: magic})
 			}
 		})
 		c.Add(okRole, "R2", "decodeTags:role-fallback", dt, "a buffer without the magic byte is taken whole as the role tag", "map update + edge dominance")
